@@ -7,7 +7,7 @@ From FlacWriters Require Import Params_proofs.
 From FlacReaders Require Readers Spec Ser RNum Seek.
 From FlacWriters Require Import Lists_proofs Writers_proofs.
 From FlacWriters Require Import Bytes_proofs.
-From FlacE2E Require Import Bridge E2E SampleE2E Success ChannelE2E ByteE2E ReadBridge ReadersE2E.
+From FlacE2E Require Import Bridge E2E SampleE2E Success ChannelE2E ByteE2E ByteSuccess ChannelSuccess ReadBridge ReadersE2E.
 Import ListNotations.
 Open Scope N_scope.
 
@@ -155,6 +155,46 @@ Theorem C01_end_to_end_bytes : forall o L md5, (forall l, length (md5 l) = 16%na
     concat (map FlacCodec.Stream.interleave_frame blocks) = firstn (N.to_nat ch * (length samples / N.to_nat ch)) samples.
 Proof. intros. eapply e2e_byte_pcm; eauto. Qed.
 
+(* C01 for FlacChannelWriter and FlacByteWriter with hypotheses on the input only: the run SUCCEEDS (no error, no
+   panic, either build profile) under any chunking of the writes, and the finished file decodes to what was written *)
+Theorem C01_channel_writer_lossless : forall o L md5, (forall l, length (md5 l) = 16%nat) ->
+  forall p rate bps wo ch total w chunks,
+  options_wf wo ->
+  channel_new p [] wo rate bps ch total = Ok w ->
+  Forall (chunk_ok (N.to_nat ch)) chunks ->
+  let all := cconcat (N.to_nat ch) chunks in
+  forallb (FlacCodec.Wf.fits bps) (concat all) = true ->
+  let m := length (hd [] all) in
+  (1 <= m)%nat -> N.of_nat m < 2 ^ 36 ->
+  match total with Some T => T = N.of_nat m | None => True end ->
+  exists f blocks,
+    channel_run (encB o L rate bps) md5 p w chunks = Ok f /\
+    FlacCodec.Stream.dec_stream (f_stream f) =
+      Some (conv_si (f_si f), map FlacCodec.Stream.interleave_frame blocks, FlacCodec.Stream.EndEof) /\
+    stack blocks (repeat [] (N.to_nat ch)) = all.
+Proof. exact channel_writer_lossless. Qed.
+
+Theorem C01_byte_writer_lossless : forall o L md5, (forall l, length (md5 l) = 16%nat) ->
+  forall p rate bps en wo ch total w chunks,
+  options_wf wo ->
+  byte_new p en [] wo rate bps ch total = Ok w ->
+  Forall byte_ok (concat chunks) ->
+  let nb := bytes_per_sample_of bps in
+  let samples := decode_bytes en (N.to_nat nb) (concat chunks) in
+  forallb (FlacCodec.Wf.fits bps) samples = true ->
+  let W := N.of_nat (length samples) / ch in
+  1 <= W -> N.of_nat (length samples) < 2 ^ 36 ->
+  match total with Some T => T = nb * ch * W | None => True end ->
+  exists f blocks,
+    byte_run (encB o L rate bps) md5 p w chunks = Ok f /\
+    FlacCodec.Stream.dec_stream (f_stream f) =
+      Some (conv_si (f_si f), map FlacCodec.Stream.interleave_frame blocks, FlacCodec.Stream.EndEof) /\
+    concat (map FlacCodec.Stream.interleave_frame blocks) =
+      firstn (N.to_nat ch * (length samples / N.to_nat ch)) samples.
+Proof. exact byte_writer_lossless. Qed.
+
+Print Assumptions C01_byte_writer_lossless.
+Print Assumptions C01_channel_writer_lossless.
 Print Assumptions C01_end_to_end_bytes.
 Print Assumptions C01_end_to_end_channels.
 Print Assumptions C01_written_samples_are_read.
